@@ -154,3 +154,9 @@ Definition erat_model (l1 maxKB start stop : N) : list N :=
       | Some result => filter (fun n => start <=? n) (flat_map (fun r => surviving (fst r) (snd r)) result)
       end
   end.
+
+(** the byte values of the sieve array after the cross-off: all ones AND every unset mask applied to the byte *)
+Definition byte_val (cleared : list (N * N)) (j : N) : N :=
+  fold_left N.land (map snd (filter (fun c => fst c =? j) cleared)) 255.
+Definition sieve_bytes (sg : kseg) (cleared : list (N * N)) : list N :=
+  map (fun j => byte_val cleared (N.of_nat j)) (seq 0 (N.to_nat (k_size sg))).
